@@ -15,7 +15,7 @@ The model follows the Go code as it is, including:
   `uint32(file size)` *before* trying to read the payload.
 
 The protobuf payload encoding, the CRC and the Go map iteration order used by `asChanges` are
-parameters (`Codec`); `BadgerModel/ManifestPb.lean` and `BadgerModel/CrcAux.lean` provide the
+parameters (`Codec`); `BadgerModel/ManifestPb.lean` and `BadgerModel/Crc.lean` provide the
 concrete instance used by the driver (real protobuf wire format, bit-level CRC32-C, ascending
 table ids).
 -/
@@ -120,10 +120,19 @@ structure Codec where
   dec : Bytes → Option ChangeSet
   ord : List (Nat × TableManifest) → List (Nat × TableManifest)
 
-/-- The assumed contracts of the parameters. -/
+/-- The Go types of the fields of `pb.ManifestChange` (`uint64`, `uint32`, `int32` enums). -/
+def Change.InRange (c : Change) : Prop :=
+  c.id < 2 ^ 64 ∧ c.op < 2 ^ 32 ∧ c.level < 2 ^ 32 ∧ c.keyId < 2 ^ 64 ∧ c.encAlgo < 2 ^ 32 ∧
+  c.compression < 2 ^ 32
+
+def ChangeSet.InRange (cs : ChangeSet) : Prop := ∀ c, c ∈ cs → c.InRange
+
+/-- The assumed contracts of the parameters: the checksum is a `uint32`, unmarshalling a
+    marshalled change set (of values that fit their Go types) gives it back, the map iteration
+    order is some permutation. -/
 structure Codec.Valid (cd : Codec) : Prop where
   crc_lt : ∀ b, cd.crc b < 2 ^ 32
-  dec_enc : ∀ cs, cd.dec (cd.enc cs) = some cs
+  dec_enc : ∀ cs, ChangeSet.InRange cs → cd.dec (cd.enc cs) = some cs
   ord_perm : ∀ l, (cd.ord l).Perm l
 
 /-! ## file format -/
@@ -164,6 +173,13 @@ inductive ReplayErr where
 deriving DecidableEq, Repr
 
 abbrev ReplayResult := Except ReplayErr (Manifest × Nat)
+
+instance : DecidableEq ReplayResult := fun a b =>
+  match a, b with
+  | .ok x, .ok y => if h : x = y then isTrue (by rw [h]) else isFalse (fun h' => by cases h'; exact h rfl)
+  | .error x, .error y => if h : x = y then isTrue (by rw [h]) else isFalse (fun h' => by cases h'; exact h rfl)
+  | .ok _, .error _ => isFalse (fun h => by cases h)
+  | .error _, .ok _ => isFalse (fun h => by cases h)
 
 /-- The `for` loop of `ReplayManifestFile` on the unread rest of the file.
     `fsize` is `stat.Size()`, `off` the reader's count, `fuel ≥ rest.length` suffices. -/
